@@ -323,6 +323,8 @@ class Interp(object):
             out = sub.run(callee, args, closure=st.env if callee.outer is not None else None,
                           outer_sinks=st.sink_names if callee.outer is not None else ())
             self.none_iter += sub.none_iter
+            for sk in sub.sinks:
+                sk.via = (id(e),) + getattr(sk, 'via', ())      # one row site per call site of the helper
             self.sinks += sub.sinks
             self.frames += [fr for fr in sub.frames if fr not in self.frames]
             return out
